@@ -161,7 +161,7 @@ def main(tier):
     specs = wcommon.valid_specs(tier)
     t0 = time.time()
     results = wrun.run_all(specs)
-    keep = ('no C assert', 'event trace is well formed', 'file index well formed', 'each data file carries exactly the 19', 'sequence_num counts',
+    keep = ('no C assert', 'event trace is well formed', 'file index well formed', 'each data file carries exactly the 19', 'sequence_num counts', 'representation invariant Inv_W',
             'every created file has')
     tot = wcommon.report(rep, specs, results, lambda nm: nm.startswith(keep),
                          sigmap={})
